@@ -7,7 +7,7 @@ import tarfile
 import warnings
 import zipfile
 
-from .common import (Case, coq_bool, coq_fl, coq_json, coq_list, coq_str, exn_name, float_me, scratch_dir,
+from .common import (Case, coq_bool, coq_fl, coq_json, coq_list, coq_str, exn_name, float_me, scratch_dir, scratch_root,
                      to_plain, typed, untyped)
 
 PROP = "C16"
@@ -52,7 +52,7 @@ FN_SP = "signac_statepoint.json"
 # ------------------------------------------------------------------ generators
 def _universe(rng):
     u = rng.choice(["pow10", "one", "one", "neg", "prefixkeys", "nested", "hetero", "hetero", "strings", "strings",
-                    "seps", "seps", "lists", "two", "two", "floats", "mixed", "mixed", "bools", "bools", "boolstr"])
+                    "seps", "seps", "lists", "two", "two", "floats", "mixed", "mixed", "bools", "bools", "boolstr", "signed", "signed", "numstr", "originkey"])
     R = rng.random
     if u == "pow10":
         pool = [{"a": v} for v in (1, 10, 100, 1000, 11, 2)]
@@ -80,6 +80,13 @@ def _universe(rng):
         pool = [{"a": v, "b": w} for v in (1, 2, 10) for w in ("x", "y", 1.5)]
     elif u == "bools":
         pool = [{"flag": f, "n": n} for f in (True, False) for n in (1, 2, 3)] + [{"flag": True, "n": 10}]
+    elif u == "signed":    # negative / positive plain decimals and integers behind {x:float} / {n:int}
+        pool = [{"x": x, "n": n} for x in (-0.25, 0.5, -1.5, 2.0, -10.75, 0.125) for n in (-3, 7, -12, 0)]
+    elif u == "originkey":   # a key that is called like the (relative) origin: layout exp/exp/<v>, schema exp/{exp:int}
+        pool = [{"exp": v} for v in (0, 1, 2, 10)] + [{"exp": 1, "b": "x"}, {"exp": 2, "b": "y"}]
+    elif u == "numstr":    # strings that ':float' / ':int' fields read as numbers (signed, bare '.5', '5.')
+        pool = [{"x": x, "n": n} for x, n in (("+1.5", "+7"), ("-2", "-2"), (".5", "007"), ("5.", "5"), ("1e3", "12"),
+                                              ("-.5", "-0"), ("+.25", "+0"), ("1.5.2", "1_0"))]
     elif u == "boolstr":   # strings that a ':bool' field reads as booleans (or not)
         pool = [{"flag": f, "n": 1} for f in ("true", "True", "TRUE", "false", "False", "FALSE", "0", "1", "yes", "no", "f")]
     elif u == "floats":
@@ -99,6 +106,26 @@ def _big_universe(rng):
         if all(typed(sp) != typed(x) for x in out) and len(out) < 12:
             out.append(sp)
     return u, out
+
+
+def _small_zip():
+    """bytes of a small, deterministic zip file"""
+    import io
+    buf = io.BytesIO()
+    with zipfile.ZipFile(buf, "w") as z:
+        z.writestr(zipfile.ZipInfo("hello.txt"), "hi")
+    return buf.getvalue()
+
+
+def _small_tar():
+    """bytes of a small, deterministic tar file (one member, padding cut to two zero blocks)"""
+    import io
+    buf = io.BytesIO()
+    with tarfile.open(fileobj=buf, mode="w", format=tarfile.USTAR_FORMAT) as t:
+        ti = tarfile.TarInfo("hello.txt")
+        ti.size = 2
+        t.addfile(ti, io.BytesIO(b"hi"))
+    return buf.getvalue()[:2048]
 
 
 def _files(rng, i):
@@ -136,6 +163,10 @@ def _files(rng, i):
         fs["x/y/payload"] = b"xy".hex()
     if r() < 0.12:                       # a nested signac project: state point files three levels down
         fs.update({k: v for k, v in _nested_files(i).items() if k.startswith("analysis")})
+    if r() < 0.06:                       # archive files among the job data
+        fs["bundle.zip"] = _small_zip().hex()
+    if r() < 0.03:
+        fs["inner.tar"] = _small_tar().hex()
     if r() < 0.08:
         fs["10"] = None
         fs["10/x"] = b"ten".hex()
@@ -243,6 +274,17 @@ def _one(rng, tier, big=False):
         schema = {"t": "auto_str", "wrong": False, "force": {"flag": "bool"}}
         if rng.random() < 0.5:
             kind = "dir"
+    if u in ("signed", "numstr") and sps:
+        path = {"t": "fmt", "segs": [["lit", "x/"], ["key", ["x"]], ["lit", "/n/"], ["key", ["n"]]]}
+        schema = {"t": "auto_str", "wrong": False, "force": {"x": "float", "n": "int"}}
+        strip = kind == "dir" and rng.random() < 0.4
+    force_spell = None
+    if u == "originkey" and sps:
+        path = {"t": "none"}
+        schema = {"t": "auto_str", "wrong": False}
+        kind = "dir"
+        strip = rng.random() < 0.3
+        force_spell = rng.choice(["exp", "exp", "./exp", "abs"])
     zip_extra = kind == "zip" and rng.random() < 0.25
     pre = []
     if jobs and rng.random() < 0.2:
@@ -258,7 +300,11 @@ def _one(rng, tier, big=False):
         kind = rng.choice(["dir", "zip"])     # inner '..' in tar member names: outside the model's domain
     strip = kind == "dir" and schema["t"] != "none" and rng.random() < (0.5 if u in ("bools", "boolstr") else 0.35)
     return {"universe": u, "jobs": jobs, "asc": rng.random() < 0.6, "kind": kind, "path": path, "schema": schema,
-            "pre": pre, "strip": strip or zip_extra, "rel": kind == "dir" and rng.random() < 0.3}
+            "pre": pre, "strip": strip or zip_extra,
+            "tspell": rng.choice(["abs", "abs", "abs", "exp", "./exp", "exp/"]) if kind == "dir" else "abs",
+            "ospell": (force_spell or rng.choice(["abs", "abs", "exp", "./exp", "exp/", "exp/../exp", ".//exp", "exp/."]))
+            if kind == "dir" else "abs",
+            "tloc": rng.choice(["workspace_old", "workspace~", "workspaceX"]) if kind == "dir" and rng.random() < 0.12 else None}
 
 
 def _nested_files(v):
@@ -308,6 +354,70 @@ FIXED = [
     {"universe": "F20-root-empty", "jobs": [{"sp": typed({"a": 1}), "files": {}}, {"sp": typed({"a": 2}), "files": {}}],
      "asc": True, "kind": "zip", "path": {"t": "call", "names": [".", ""], "mode": "byid_asc"},
      "schema": {"t": "none"}, "pre": [], "strip": False},
+    # the three import repairs 7b4884e / 54d0555 / 18617f5
+    {"universe": "origin-next-to-workspace", "jobs": [{"sp": typed({"a": v}), "files": {"f.txt": b"f".hex()}} for v in (0, 1, 2)],
+     "asc": True, "kind": "dir", "path": {"t": "none"}, "schema": {"t": "none"}, "pre": [], "strip": False, "tloc": "workspace_old"},
+    {"universe": "origin-next-to-workspace", "jobs": [{"sp": typed({"a": v}), "files": {"f.txt": b"f".hex()}} for v in (0, 1, 2)],
+     "asc": True, "kind": "dir", "path": {"t": "none"}, "schema": {"t": "none"}, "pre": [], "strip": False, "tloc": "workspace~"},
+    {"universe": "origin-next-to-workspace", "jobs": [{"sp": typed({"a": v}), "files": {"f.txt": b"f".hex()}} for v in (0, 1, 2)],
+     "asc": True, "kind": "dir", "path": {"t": "none"}, "schema": {"t": "none"}, "pre": [], "strip": False, "tloc": "workspaceX"},
+    {"universe": "origin-next-to-workspace", "jobs": [{"sp": typed({"a": v}), "files": {}} for v in (0, 1, 2)],
+     "asc": False, "kind": "dir", "path": {"t": "none"}, "schema": {"t": "auto_str", "wrong": False}, "pre": [], "strip": True,
+     "tloc": "workspace_old"},
+    {"universe": "relative-origin-key", "jobs": [{"sp": typed({"exp": v}), "files": {}} for v in (0, 1, 2)],
+     "asc": True, "kind": "dir", "path": {"t": "none"}, "schema": {"t": "auto_str", "wrong": False}, "pre": [], "strip": False,
+     "tspell": "exp", "ospell": "exp"},
+    {"universe": "relative-origin-key", "jobs": [{"sp": typed({"exp": v}), "files": {"f.txt": b"f".hex()}} for v in (0, 1, 2)],
+     "asc": False, "kind": "dir", "path": {"t": "none"}, "schema": {"t": "auto_str", "wrong": False}, "pre": [], "strip": True,
+     "tspell": "abs", "ospell": "./exp"},
+    {"universe": "relative-origin-key", "jobs": [{"sp": typed({"exp": v}), "files": {}} for v in (0, 1, 2)],
+     "asc": True, "kind": "dir", "path": {"t": "none"}, "schema": {"t": "auto_str", "wrong": False}, "pre": [], "strip": False,
+     "tspell": "abs", "ospell": "abs"},
+    {"universe": "tar-with-zip-inside", "jobs": [{"sp": typed({"a": v}), "files": {"bundle.zip": _small_zip().hex()}} for v in (0, 1)],
+     "asc": True, "kind": "tar", "path": {"t": "none"}, "schema": {"t": "none"}, "pre": [], "strip": False},
+    {"universe": "tar-with-zip-inside", "jobs": [{"sp": typed({"a": 0}), "files": {"bundle.zip": _small_zip().hex()}}],
+     "asc": True, "kind": "tar", "path": {"t": "none"}, "schema": {"t": "none"}, "pre": [], "strip": False},
+    {"universe": "zip-with-tar-inside", "jobs": [{"sp": typed({"a": v}), "files": {"inner.tar": _small_tar().hex()}} for v in (0, 1)],
+     "asc": True, "kind": "zip", "path": {"t": "none"}, "schema": {"t": "none"}, "pre": [], "strip": False},
+    {"universe": "targz-with-zip-inside", "jobs": [{"sp": typed({"a": v}), "files": {"bundle.zip": _small_zip().hex(), "inner.tar": _small_tar().hex()}} for v in (0, 1)],
+     "asc": True, "kind": "tar.gz", "path": {"t": "none"}, "schema": {"t": "none"}, "pre": [], "strip": False},
+    # negative / signed numbers behind typed schema fields, every target kind; origin spellings
+    {"universe": "signed-dir", "jobs": [{"sp": typed({"x": x, "n": n}), "files": {"f.txt": b"f".hex()}}
+                                       for x, n in ((-0.25, -3), (0.5, 7), (-10.75, -12), (2.0, 0))],
+     "asc": True, "kind": "dir", "path": {"t": "fmt", "segs": [["lit", "x/"], ["key", ["x"]], ["lit", "/n/"], ["key", ["n"]]]}, "schema": {"t": "auto_str", "wrong": False, "force": {"x": "float", "n": "int"}}, "pre": [], "strip": False, "ospell": "./exp"},
+    {"universe": "signed-dir", "jobs": [{"sp": typed({"x": x, "n": n}), "files": {"f.txt": b"f".hex()}}
+                                       for x, n in ((-0.25, -3), (0.5, 7), (-10.75, -12), (2.0, 0))],
+     "asc": True, "kind": "dir", "path": {"t": "fmt", "segs": [["lit", "x/"], ["key", ["x"]], ["lit", "/n/"], ["key", ["n"]]]}, "schema": {"t": "auto_str", "wrong": False, "force": {"x": "float", "n": "int"}}, "pre": [], "strip": True, "tspell": "exp/", "ospell": "exp/../exp"},
+    {"universe": "signed-zip", "jobs": [{"sp": typed({"x": x, "n": n}), "files": {"f.txt": b"f".hex()}}
+                                       for x, n in ((-0.25, -3), (0.5, 7), (-10.75, -12), (2.0, 0))],
+     "asc": True, "kind": "zip", "path": {"t": "fmt", "segs": [["lit", "x/"], ["key", ["x"]], ["lit", "/n/"], ["key", ["n"]]]}, "schema": {"t": "auto_str", "wrong": False, "force": {"x": "float", "n": "int"}}, "pre": [], "strip": False},
+    {"universe": "signed-tar", "jobs": [{"sp": typed({"x": x, "n": n}), "files": {"f.txt": b"f".hex()}}
+                                       for x, n in ((-0.25, -3), (0.5, 7), (-10.75, -12), (2.0, 0))],
+     "asc": True, "kind": "tar", "path": {"t": "fmt", "segs": [["lit", "x/"], ["key", ["x"]], ["lit", "/n/"], ["key", ["n"]]]}, "schema": {"t": "auto_str", "wrong": False, "force": {"x": "float", "n": "int"}}, "pre": [], "strip": False},
+    {"universe": "signed-tar.gz", "jobs": [{"sp": typed({"x": x, "n": n}), "files": {"f.txt": b"f".hex()}}
+                                       for x, n in ((-0.25, -3), (0.5, 7), (-10.75, -12), (2.0, 0))],
+     "asc": True, "kind": "tar.gz", "path": {"t": "fmt", "segs": [["lit", "x/"], ["key", ["x"]], ["lit", "/n/"], ["key", ["n"]]]}, "schema": {"t": "auto_str", "wrong": False, "force": {"x": "float", "n": "int"}}, "pre": [], "strip": False},
+    {"universe": "numstr-plain", "jobs": [{"sp": typed({"x": x, "n": n}), "files": {}}
+                                          for x, n in (("+1.5", "+7"), ("-.5", "-0"), (".5", "007"), ("5.", "5"))],
+     "asc": True, "kind": "dir", "path": {"t": "fmt", "segs": [["lit", "x/"], ["key", ["x"]], ["lit", "/n/"], ["key", ["n"]]]}, "schema": {"t": "auto_str", "wrong": False, "force": {"x": "float", "n": "int"}}, "pre": [], "strip": True, "ospell": "exp/"},
+    {"universe": "origin-spelling", "jobs": [{"sp": typed({"a": v}), "files": {"f.txt": b"f".hex()}} for v in (1, 10, 2)],
+     "asc": True, "kind": "dir", "path": {"t": "none"}, "schema": {"t": "auto_str", "wrong": False}, "pre": [], "strip": False,
+     "tspell": "abs", "ospell": "exp"},
+    {"universe": "origin-spelling", "jobs": [{"sp": typed({"a": v}), "files": {"f.txt": b"f".hex()}} for v in (1, 10, 2)],
+     "asc": True, "kind": "dir", "path": {"t": "none"}, "schema": {"t": "auto_str", "wrong": False}, "pre": [], "strip": False,
+     "tspell": "abs", "ospell": "./exp"},
+    {"universe": "origin-spelling", "jobs": [{"sp": typed({"a": v}), "files": {"f.txt": b"f".hex()}} for v in (1, 10, 2)],
+     "asc": True, "kind": "dir", "path": {"t": "none"}, "schema": {"t": "auto_str", "wrong": False}, "pre": [], "strip": False,
+     "tspell": "abs", "ospell": "exp/"},
+    {"universe": "origin-spelling", "jobs": [{"sp": typed({"a": v}), "files": {"f.txt": b"f".hex()}} for v in (1, 10, 2)],
+     "asc": True, "kind": "dir", "path": {"t": "none"}, "schema": {"t": "auto_str", "wrong": False}, "pre": [], "strip": False,
+     "tspell": "abs", "ospell": "exp/../exp"},
+    {"universe": "origin-spelling", "jobs": [{"sp": typed({"a": v}), "files": {"f.txt": b"f".hex()}} for v in (1, 10, 2)],
+     "asc": True, "kind": "dir", "path": {"t": "none"}, "schema": {"t": "auto_str", "wrong": False}, "pre": [], "strip": False,
+     "tspell": "abs", "ospell": ".//exp"},
+    {"universe": "origin-spelling", "jobs": [{"sp": typed({"a": v}), "files": {"f.txt": b"f".hex()}} for v in (1, 10, 2)],
+     "asc": True, "kind": "dir", "path": {"t": "none"}, "schema": {"t": "auto_str", "wrong": False}, "pre": [], "strip": False,
+     "tspell": "abs", "ospell": "exp/."},
     # state point files deep below a job directory (a nested signac project, a bare x/y/signac_statepoint.json):
     # everything below a recognised job belongs to it, at any depth, for every kind of origin
     {"universe": "nested-project-dir", "jobs": [{"sp": typed({"a": v}), "files": _nested_files(v)} for v in (1, 2, 3)],
@@ -419,7 +529,7 @@ FIXED = [
 
 def gen_inputs(tier, rng):
     descs = [dict(d) for d in FIXED]
-    n = 194 if tier == "quick" else 6000
+    n = 170 if tier == "quick" else 6000
     for i in range(n):
         descs.append(_one(rng, tier, big=(tier != "quick" and i % 3 == 0) or (tier == "quick" and i % 12 == 0)))
     return descs
@@ -617,11 +727,23 @@ def run_case(desc):
         pre_jobs = [make_job(dstp, jd) for jd in desc["pre"]]
 
         target = os.path.join(d, "t", "e", "exp" + ("" if kind == "dir" else "." + kind))
-        rel_target = bool(desc.get("rel")) and kind == "dir"
+        # how the directory target / origin is SPELLED (cwd = its parent, always inside the scratch dir):
+        # "abs", "exp", "./exp", "exp/" for the export; additionally "exp/../exp", ".//exp" for the import
+        # WHERE the directory target lives: normally <case>/t/e/exp; "workspace_old" etc. = a sibling of the
+        # importing project's workspace whose name starts like it (repair 7b4884e)
+        tloc = desc.get("tloc") if kind == "dir" else None
+        if tloc:
+            target = os.path.join(d, "dst", tloc)
+        abs_target = target
+        tspell = desc.get("tspell") or ("exp" if desc.get("rel") else "abs")
+        ospell = desc.get("ospell") or (tspell if tspell != "abs" else "abs")
+        if kind != "dir" or tloc:
+            tspell = ospell = "abs"
+        rel_target = tspell != "abs"
+        home_cwd = os.path.join(d, "t", "e")
         if rel_target:
-            # a relative one-component directory target, cwd = its parent
-            target = "exp"
-            os.chdir(os.path.join(d, "t", "e"))
+            target = tspell
+            os.chdir(home_cwd)
         with sorted_listings(asc):
             srcp = signac.get_project(os.path.join(d, "src"))
             jobs = list(srcp)
@@ -688,14 +810,21 @@ def run_case(desc):
             after = snap(d)
             src_same = all(before.get(k) == v for k, v in after.items() if k.startswith("src/") or k == "src") and \
                 all(k in after for k in before if k.startswith("src/") or k == "src")
-            tgt_rel = os.path.relpath(os.path.join(d, "t", "e", target) if rel_target else target, d)
+            tgt_rel = os.path.relpath(abs_target, d)
             outside = sorted(k for k, v in after.items()
                              if not (k == "src" or k.startswith("src/"))
                              and (k not in before or before[k] != v)
                              and not (k == tgt_rel or k.startswith(tgt_rel + "/")))
             outside += sorted(k for k in before if k not in after)
             if mk == "dir":
-                art = {k: v for k, v in after.items() if k == "t" or k.startswith("t/")}
+                if tloc:
+                    # present the tree below the sibling target as the model's t/e/exp
+                    art = {"t": None, "t/e": None}
+                    for k, v in after.items():
+                        if k == tgt_rel or k.startswith(tgt_rel + "/"):
+                            art["t/e/exp" + k[len(tgt_rel):]] = v
+                else:
+                    art = {k: v for k, v in after.items() if k == "t" or k.startswith("t/")}
                 cart = "(ADir %s)" % coq_fs(art)
                 art_obs = {k: (None if v is None else v.hex()) for k, v in art.items()}
             elif mk == "zip":
@@ -727,7 +856,7 @@ def run_case(desc):
             # ---- import
             i_run = x_exn is None
             if not i_run:
-                os.chdir("/")
+                os.chdir(scratch_root())
             i_exn, i_outside = None, []
             s = desc["schema"]
             cschema, schema_txt = "SchNone", None
@@ -739,7 +868,7 @@ def run_case(desc):
                         zf.writestr(zipfile.ZipInfo("zz_outside/empty/"), b"")
                 if desc["strip"] and mk == "dir":
                     for dst in x_map:
-                        f = os.path.join(os.path.join(d, "t", "e", "exp") if rel_target else target, os.path.normpath(dst), FN_SP)
+                        f = os.path.join(abs_target, os.path.normpath(dst), FN_SP)
                         if os.path.isfile(f):
                             os.remove(f)
                 pyschema = None
@@ -765,19 +894,20 @@ def run_case(desc):
                         intended[keys[-1]] = {"wrong": 1}
 
                     def pyschema(path, intended=intended):
-                        rel = os.path.normpath(os.path.relpath(path, target) if mk == "dir" else path)   # cwd-relative for both
+                        rel = os.path.normpath(os.path.relpath(path, origin) if mk == "dir" else path)   # cwd-relative for both
                         r = intended.get(rel)
                         calls[rel] = r
                         return r
                 before_i = snap(d)
-                os.chdir(os.path.join(d, "t", "e") if rel_target else cwd_deep)
+                origin = abs_target if ospell == "abs" else ospell
+                os.chdir(home_cwd if ospell != "abs" else cwd_deep)
                 try:
                     dstp2 = signac.get_project(os.path.join(d, "dst"))
-                    dstp2.import_from(origin=target, schema=pyschema)
+                    dstp2.import_from(origin=origin, schema=pyschema)
                 except Exception as e:  # noqa: BLE001
                     i_exn = exn_name(e)
                 finally:
-                    os.chdir("/")
+                    os.chdir(scratch_root())
                 after_i = snap(d)
                 i_outside = sorted(k for k in set(before_i) | set(after_i)
                                    if not (k == "dst/workspace" or k.startswith("dst/workspace/"))
@@ -825,8 +955,9 @@ def run_case(desc):
                             "(bool * json * str)")
         coq_parse = coq_list(["(%s, %s)" % (coq_str(c), coq_json(v)) for c, v in sorted(parse_tab.items())],
                              "(str * json)")
-        oracle = "{| o_asc := %s; o_frepr := %s; o_text := %s; o_parse := %s; o_rel := %s |}" % (
-            coq_bool(asc), coq_ftab, coq_text, coq_parse, coq_bool(rel_target))
+        oracle = "{| o_asc := %s; o_frepr := %s; o_text := %s; o_parse := %s; o_rel := %s; o_origin := %s |}" % (
+            coq_bool(asc), coq_ftab, coq_text, coq_parse, coq_bool(rel_target),
+            coq_str("" if ospell == "abs" else ospell))
         coq = ("{| c_jobs := %s; c_oracle := %s; c_kind := %s; c_path := %s; c_schema := %s; c_pre := %s; "
                "c_strip := %s; x_exn := %s; x_map := %s; x_art := %s; x_src_same := %s; x_outside := %s; "
                "i_run := %s; i_exn := %s; i_dst := %s; i_outside := %s |}") % (
@@ -847,9 +978,12 @@ def run_case(desc):
             kinds.append("pre-existing")
         if desc["strip"]:
             kinds.append("stripped")
-        if rel_target:
-            kinds.append("relative-target")
-        key = json.dumps({k: desc.get(k) for k in ("jobs", "asc", "kind", "path", "schema", "pre", "strip", "rel")}, sort_keys=True)
+        if kind == "dir":
+            kinds.append("target-spelling=" + tspell)
+            kinds.append("origin-spelling=" + ospell)
+            if tloc:
+                kinds.append("target-next-to-workspace")
+        key = json.dumps({k: desc.get(k) for k in ("jobs", "asc", "kind", "path", "schema", "pre", "strip", "rel", "tspell", "ospell", "tloc")}, sort_keys=True)
         return Case(coq, desc, obs=obs, nontrivial=len(ids) >= 2, key=key, kinds=kinds)
 
 
